@@ -1,6 +1,7 @@
 package client
 
 import (
+	"runtime"
 	"context"
 	"encoding/json"
 	"errors"
@@ -216,7 +217,7 @@ func c11Bubble(c c11Case) c11Result {
 	if c.Dir == "server-drops-some-connections" {
 		srv.dropFrom, srv.dropKind, srv.dropCount, srv.idleClose = c.At, c.Kind, c.DropCount, c.IdleClose
 	}
-	if c.Dir == "close-during-redial" {
+	if c.Dir == "close-during-redial" || c.Dir == "second-caller-during-redial" {
 		srv.closeAt = c.At // the server drops the first connection after its At-th reply: the next call has to re-dial
 	}
 	dials := 0
@@ -230,7 +231,7 @@ func c11Bubble(c c11Case) c11Result {
 			runaway = true
 			return nil, errors.New("memnet: harness cut-off after 60 connections")
 		}
-		if c.Dir == "close-during-redial" && n >= 1 {
+		if (c.Dir == "close-during-redial" || c.Dir == "second-caller-during-redial") && n == 1 {
 			// the re-dial takes time: the harness closes the client meanwhile, then lets the dial succeed
 			close(redialStarted)
 			<-redialRelease
@@ -570,6 +571,72 @@ func c11Bubble(c c11Case) c11Result {
 		}
 		return r
 	}
+	if c.Dir == "second-caller-during-redial" {
+		// a second goroutine calls while the first one's call is re-dialling (the dial takes a while): both calls get
+		// their answers, and the client ends up with one connection, which Close closes - nothing else stays behind
+		for i := 0; i < 4; i++ {
+			id := fmt.Sprintf("req-%d", i+1)
+			res := make(chan error, 2)
+			request := func(id string) {
+				res <- safely(func() error {
+					resp, err := cl.Request(context.Background(), &payloads.ActivateRequestPayload{UniqueIdentifier: id})
+					if err != nil {
+						return nil
+					}
+					if ap, isA := resp.(*payloads.ActivateResponsePayload); !isA || ap.UniqueIdentifier != id {
+						return fmt.Errorf("panic: wrong response for %s: %#v", id, resp)
+					}
+					return nil
+				})
+			}
+			go request(id)
+			synctest.Wait()
+			select {
+			case perr := <-res:
+				if perr != nil {
+					return fail("call-panics", "%v", perr)
+				}
+				continue
+			default:
+			}
+			select {
+			case <-redialStarted:
+			default:
+				return fail("call-hangs", "call %s neither returned nor is it dialling", id)
+			}
+			// (a goroutine waiting for a sync.Mutex is not durably blocked: synctest.Wait and the bubble's clock would
+			// wait for it for ever, so the second caller is given a moment of real scheduling instead)
+			secondStarted := make(chan struct{})
+			go func() { close(secondStarted); request(id + "-second-caller") }()
+			<-secondStarted
+			for k := 0; k < 2000; k++ {
+				runtime.Gosched()
+			}
+			close(redialRelease)
+			synctest.Wait()
+			for k := 0; k < 2; k++ {
+				select {
+				case perr := <-res:
+					if perr != nil {
+						return fail("wrong-or-partial-response", "%v", perr)
+					}
+				default:
+					return fail("call-hangs", "a call did not return although the re-dial has completed (two callers, one of them re-dialling)")
+				}
+			}
+			break
+		}
+		r := finish()
+		if r.err != nil {
+			return r
+		}
+		for i, cc := range cliConns {
+			if !cc.IsClosed() {
+				return fail("abandoned-connection-left-open", "connection %d dialled by the client was never closed although the client is closed (%d connections dialled)", i, dials)
+			}
+		}
+		return r
+	}
 	prevFailed := false
 	check := func(ok bool) *c11Result {
 		if !ok && prevFailed && c.Reachable && c.Dir != "server-drops-connections" {
@@ -741,6 +808,7 @@ func c11Space() []c11Case {
 					// Close() lands while a call is re-dialling after the server dropped the connection
 					for at := 1; at <= 3; at++ {
 						add("close-during-redial", at, "")
+						add("second-caller-during-redial", at, "")
 					}
 				}
 				if reachable && !enforced && fu == "again" {
